@@ -35,16 +35,20 @@ theorem while_true_break_not_blocking (p : Par) (b e : List Stmt) (h : hasBrkL b
 
 /-- **Pointless means clean**: whatever `has_side_effect` reports free of side effects contains — anywhere: in a
 comprehension element, condition or iterable, a slice, a conditional expression, an f-string, a keyword value —
-no store except to `_`, no control transfer / definition / import, and no call whose callee is not whitelisted
-(methods of literals excepted), for every whitelist. -/
+no store except to `_`, no control transfer / definition / import, no call whose callee is not whitelisted
+(methods of literals excepted), and no unknown callable handed to a builtin that calls it, for every whitelist. -/
 theorem pure_sound (W : List String) (e : E) (h : hse W e = false) : Clean W e := hse_clean W e h
 
 /-- a call of an unknown function in a comprehension element is a side effect (the repaired clause) -/
 example : hse ["print"] (.comp [.call (.name "g" .load) [.name "x" .load] []] [(.name "x" .store, .coll [.const], [])]) = true := by
   decide
-/-- `sorted([1], key=g)`: passing a callable to a whitelisted builtin is NOT flagged (known finding): the model
-agrees with the code, and `Clean` — which speaks about callees only — holds -/
-example : hse ["sorted"] (.call (.name "sorted" .load) [.coll [.const]] [.name "g" .load]) = false := by decide
+/-- `sorted([1], key=g)`: a whitelisted builtin that calls the unknown function it is handed IS a side effect (the clause
+added by the repair recorded in KNOWN_FINDINGS.txt), `key=len` with `len` whitelisted and `filter(None, …)` are not -/
+example : hse ["sorted"] (.call (.name "sorted" .load) [.coll [.const]] [.keyarg (.name "g" .load)]) = true := by decide
+example : hse ["sorted", "len"] (.call (.name "sorted" .load) [.coll [.const]] [.keyarg (.name "len" .load)]) = false := by
+  decide
+example : hse ["map"] (.call (.name "map" .load) [.name "g" .load, .coll [.const]] []) = true := by decide
+example : hse ["filter"] (.call (.name "filter" .load) [.const, .coll [.const]] []) = false := by decide
 
 /-- a `break` in the `else` clause of a nested loop, or in any part of a nested `try`, belongs to the enclosing loop:
 such a `while True` is not blocking -/
